@@ -32,7 +32,7 @@ def make_copy(m):
         s = open(p).read()
         if s.count(e["old"]) < 1:
             shutil.rmtree(d, ignore_errors=True)
-            raise SystemExit("mutant %s: pattern not found in %s: %r" % (m["id"], e["file"], e["old"][:80]))
+            raise LookupError("mutant %s: pattern not found in %s: %r" % (m["id"], e["file"], e["old"][:80]))
         s = s.replace(e["old"], e["new"], e.get("count", 1))
         open(p, "w").write(s)
     return d, dst
@@ -55,7 +55,12 @@ def run_tests(dst):
 
 def one(m, args):
     t0 = time.time()
-    d, dst = make_copy(m)
+    try:
+        d, dst = make_copy(m)
+    except LookupError as e:
+        print(str(e))
+        props = m["props"] if "props" in m else [m["prop"]]
+        return m, None, dict((p_, (3, "pattern not found: mutant out of date")) for p_ in props), 0.0
     try:
         tests = None
         if args.tests:
